@@ -833,7 +833,9 @@ class TextXMetaModel(DebugPrinter):
                 is_main_model=is_main_model,
             )
 
-        self._call_model_processors(model, cached_before)
+            # Model processors run once, for a model that has just been
+            # built (not again for a model taken from the repository).
+            self._call_model_processors(model, cached_before)
 
         return model
 
